@@ -24,6 +24,9 @@ META = {
                     "the numpy global stream is a deterministic function of the seed (spot-checked)"],
 }
 
+from engine import monitor as _monitor          # noqa: E402
+META["audit"] = lambda: _monitor.audit(('H4',))
+
 
 def ob_seed_contract(with_seed, draw_in_hook=None):
     def f():
